@@ -2,6 +2,7 @@
 package all
 
 import (
+	_ "verif/worlds/iso"
 	_ "verif/worlds/reg"
 	_ "verif/worlds/smoke"
 )
